@@ -58,12 +58,20 @@ def stepLine (m : M) (line : String) : M × String :=
   match parseOp (words line) with
   | none => (m, "bad-op")
   | some (auth, op) =>
-    match apply m.cfg m.s auth op with
+    -- `mauth=<i>` on a mint: the contract wraps `Base::mint` in an owner-only guard
+    -- (wiring of the example contracts, not of the library)
+    let mauth : Option Nat := match op with
+      | .mint _ _ => kvNat? (words line) "mauth"
+      | _ => none
+    let guarded : Except Err State := match mauth with
+      | some g => if g ∈ auth then apply m.cfg m.s auth op else .error .auth
+      | none => apply m.cfg m.s auth op
+    match guarded with
     | .ok s' =>
       let evs := s'.events.drop m.s.events.length
       let dem := match op with
         | .advance _ => "-"
-        | _ => showList toString ((op.required).mergeSort (· ≤ ·))
+        | _ => showList toString ((op.required ++ mauth.toList).mergeSort (· ≤ ·))
       ({ m with s := s' },
         s!"ok {showState s'} now={s'.now} ev={if evs.isEmpty then "-" else ";".intercalate (evs.map showEvent)} dem={dem}")
     | .error _ => (m, s!"err {showState m.s} now={m.s.now} ev=- dem=-")
